@@ -149,6 +149,9 @@ def install() -> SimLoop:
     loop = SimLoop()
     asyncio.set_event_loop(loop)
     events._set_running_loop(loop)
+    import threading
+
+    loop._thread_id = threading.get_ident()  # is_running() -> True, so eager tasks start eagerly as in a live loop
     import aioesphomeapi.util as u
 
     if hasattr(u, "Task"):
@@ -159,6 +162,7 @@ def install() -> SimLoop:
 
 def uninstall(loop: SimLoop):
     events._set_running_loop(None)
+    loop._thread_id = None
     try:
         loop.close()
     except Exception:  # noqa: BLE001
